@@ -131,6 +131,7 @@ def run(ctx):
         mlines.append(f"{cid}.g {cls} std (get {Ub[bl]} {dz} {T.sexp(pu['coef'])} {T.sexp(pu['const'])} {model_val(ty, rs)})")
     model = coqbuild.run_model(mlines)
     ctx.log(f"implementation answered {len(impl)}, model answered {len(model)}")
+    ctx.vm_crosscheck(mlines, model)
     disagreements, spec_fail = [], []
     hist, distinct = {}, set()
     checked = 0
